@@ -10,11 +10,15 @@ from vlib import core  # noqa: E402
 
 
 def checks():
-    from vlib import fam_import, fam_chroot
+    from vlib import fam_import, fam_chroot, fam_frontend
     table = {
         "C05": fam_import.check_c05,
         "C06": fam_import.check_c06,
         "C18": fam_chroot.check_c18,
+        "C02": fam_frontend.check_c02,
+        "C08": fam_frontend.check_c08,
+        "C03": fam_frontend.check_c03,
+        "C04": fam_frontend.check_c04,
     }
     for mod, names in OPTIONAL:
         try:
